@@ -19,7 +19,7 @@ from concurrent.futures import ThreadPoolExecutor
 import vlib
 
 ALL_DEVS = ["DataFailNoAbort", "CommitStopsAtFirst", "LmtpStatusKey", "EhloNoLogout",
-            "MailRawSender", "NestedMail", "LmtpCommitErrLost"]
+            "MailRawSender", "NestedMail", "LmtpCommitErrLost", "LmtpCommitAfterReject"]
 
 KEEP = {"Cfg", "Cmd", "Reply", "Tgt", "End", "Crash"}
 
@@ -27,6 +27,8 @@ CFG = """SPECIFICATION %(spec)s
 CONSTANTS
   Rcpts = {%(rcpts)s}
   NTs = {%(nts)s}
+  Lmtps = {%(lmtps)s}
+  Holds = {%(holds)s}
   Fails = {%(fails)s}
   MaxFaults = %(maxfaults)d
   MaxCmds = %(maxcmds)d
@@ -42,8 +44,8 @@ def q(xs):
 
 
 def cfg(rcpts=(), nts=(), fails=(), maxfaults=1, maxcmds=5, devs=(), gen=False, tail="", spec="Spec",
-        allowed=("*",)):
-    return CFG % dict(spec=spec, allowed=q(allowed), rcpts=q(rcpts), nts=", ".join(str(n) for n in nts), fails=q(fails),
+        allowed=("*",), lmtps=("TRUE", "FALSE"), holds=("TRUE", "FALSE")):
+    return CFG % dict(spec=spec, allowed=q(allowed), lmtps=", ".join(lmtps), holds=", ".join(holds), rcpts=q(rcpts), nts=", ".join(str(n) for n in nts), fails=q(fails),
                       maxfaults=maxfaults, maxcmds=maxcmds, devs=q(devs),
                       gen="TRUE" if gen else "FALSE", tail=tail)
 
@@ -274,7 +276,7 @@ def run(ctx, replay):
         raise vlib.Infra("known_findings names deviations Session.tla does not have: %s" % unknown)
 
     # ---- (T) exhaustive model checking + (B) behaviours out of TLC, run side by side ----
-    small = dict(rcpts=["rb"], nts=[2], fails=["perm"], maxfaults=1, maxcmds=5)
+    small = dict(rcpts=["rb"], nts=[2], fails=["perm"], maxfaults=1, maxcmds=5, holds=["FALSE"])
 
     def job_mc():
         if thorough:
@@ -317,6 +319,13 @@ def run(ctx, replay):
                        cfg_text=cfg(["ra"], [1], [], 0, 8, devs=open_devs, gen=True, tail="VIEW GenView\n" + GEN_TAIL,
                                     allowed=["HELO:", "MAIL:ok", "MAIL:rej", "RCPT:ok", "RSET:", "DROP:"]))
 
+    def job_spell():   # LMTP: the same recipient in another spelling in a later transaction of the session
+        return ctx.tlc("Session", None, name="spell", workers=4, timeout=900, heap="3g",
+                       cfg_text=cfg(["ra"], [1], ["perm"], 1 if thorough else 0, 8, devs=open_devs, gen=True,
+                                    tail="VIEW GenView\n" + GEN_TAIL, lmtps=["TRUE"], holds=["FALSE"],
+                                    allowed=["HELO:", "MAIL:ok", "RCPT:ok", "RCPT:up", "DATA:ok", "DATA:loop",
+                                             "RSET:", "DROP:"]))
+
     def job_sim(i, n, rc, nts, mf, mc):
         return ctx.tlc("Session", None, name="sim%d" % i, workers=1, timeout=1500, simulate=n, depth=150, heap="2g",
                        cfg_text=cfg(rc, nts, ["temp", "perm"], mf, mc, devs=open_devs, gen=True, tail=GEN_TAIL))
@@ -334,6 +343,7 @@ def run(ctx, replay):
             f_live = ex.submit(job_live)
             f_focus = ex.submit(job_focus)
             f_core = ex.submit(job_core)
+            f_spell = ex.submit(job_spell)
             f_asis = {dv: ex.submit(job_asis, dv) for dv in ALL_DEVS}
             f_sim = [ex.submit(job_sim, i, *a) for i, a in enumerate(sims)]
             r = f_mc.result()
@@ -343,6 +353,7 @@ def run(ctx, replay):
             gs = [f.result() for f in f_sim]
             gf = f_focus.result()
             gc = f_core.result()
+            gsp = f_spell.result()
         ctx.cov["states"] = r["distinct"]
         ctx.cov["transitions"] = r["generated"]
         ctx.cov["model_depth"] = r["depth"]
@@ -376,6 +387,11 @@ def run(ctx, replay):
         fb = behaviours_from(gf)
         crashy = [b for b in fb if b["crash"]]
         ctx.cov["model_crash_behaviours"] = len(crashy)
+        if not gsp["ok"]:
+            raise vlib.Infra("spelling-focused behaviour generation failed: %s %s" % (gsp["invariant"], gsp["error"]))
+        sp_b = behaviours_from(gsp)
+        ctx.cov["spelling_behaviours"] = len(sp_b)
+        behs += stratified(ctx.rng, sp_b, 20000 if thorough else 2500)
         behs += vlib.sample(ctx.rng, crashy, 40 if thorough else 3)
         behs += vlib.sample(ctx.rng, [b for b in fb if not b["crash"]], 400 if thorough else 40)
         for gi in gs:
@@ -482,7 +498,8 @@ def run(ctx, replay):
                        "the state graph (quick: <=5 commands, stratified sample of 1000; thorough: <=6 commands, 30000); (b) "
                        "over the core alphabet HELO/MAIL ok,null/RCPT ok/DATA ok/RSET/drop one behaviour per distinct (final "
                        "state, set of event kinds: commands, DATA reply classes, target calls with ok/fail) (quick: <=6 commands, "
-                       "stratified sample of 5000; thorough: <=7 commands, 40000); (c) the focused nested-MAIL corner; (d) "
+                       "stratified sample of 5000; thorough: <=7 commands, 40000); (c) focused corners: nested MAIL with an idle source bucket; LMTP with one recipient in two spellings "
+                       "across the transactions of a session (<=8 commands); (d) "
                        "-simulate with VERIF_SEED up to 12 commands; de-duplicated; stratified = round-robin over protocol x "
                        "mode x targets x routing x deviations x fault placement; non-trivial = "
                        "a scripted failure, an invalid/odd argument, RSET/drop/pipelining or BDAT")
@@ -496,14 +513,17 @@ def run(ctx, replay):
         "oversized header, body check reject, connection cut inside the body}, BDAT/BDAT LAST, RSET, NOOP, QUIT, drop; "
         "pipelined groups; AUTH is not exercised (C14)",
         "restrictions of the alphabet: no EHLO while a BDAT transfer is open; BDAT only with a sender and a recipient; "
-        "one spelling per recipient and transaction; LMTP with one target per recipient (two targets setting the "
-        "status of one recipient race with go-smtp's collector); no body-check reject together with upper-case "
-        "recipients in LMTP",
+        "one spelling per recipient and transaction (another spelling in a later transaction is explored); LMTP "
+        "with one target per recipient (two targets setting the status of one recipient race with go-smtp's "
+        "collector)",
         "faults are injected in the scripted targets (Start/AddRcpt/Body/BodyNonAtomic/Commit/Abort) and in a "
         "scripted check (sender and body stage); modifiers are not scripted",
         "the client is a raw line-based script played through an in-memory net.Conn handed to the go-smtp server; "
         "events are logged by the server's own goroutine where it takes a command from / puts a reply on the wire",
-        "limits: all/ip/source concurrency 10 (never saturated here; saturation is C11)",
+        "limits: all/ip/source concurrency 10; in the 'hold' configurations source concurrency 1 and another "
+        "session of the sender domain src.example (modelled at the limits API: TakeMsg/ReleaseMsg around the "
+        "conversation) keeps that permit, so every MAIL/RCPT of that domain waits the built-in 5 s (logical time) "
+        "and is answered 451",
         "TLC 1.8.0, CommunityModules Json reader",
     ]
 
